@@ -21,6 +21,11 @@ What is proved instead:
 * inside the decidable guard `Strict` (Model/C02.lean): every cycle of every run, for all inputs
   and every budget, ends in success or a value-dependent fault, never a static-class error or a
   panic (`c01_progress_partial`, `c01_every_cycle_partial`).
+
+The fragment of these theorems is stages S1–S3: elementary BOOL/integer variables, every
+statement form, and (S3) one-dimensional arrays and flat structs of the PROGRAM with subscripted /
+field reads and writes (`Expr.idx`, `Expr.fld`, `Stmt.assignIdx`, `Stmt.assignFld`).  Calls
+(S4/S5, `Model/StExt.lean`) have the frame theorems only.
 -/
 namespace TrustVerif.StCore
 
